@@ -165,6 +165,23 @@ var c07Customs = []c07Case{
 		Decl:     "access(all) view fun cand(r: @Res, repl: @Res?): @[Res?] { let old <- r.kid <- repl\n return <- [<- r, <- old] }",
 		Call:     "let parts <- W.cand(r: <- res, repl: <- W.mkRes())\n        let res2 <- parts.remove(at: 0)!\n        destroy parts",
 		ResAfter: "res2"},
+	// second-value transfer onto a nested resource field / dictionary-of-resources field of `self` (the shapes of seeded/C07-a),
+	// called on a local and on a stored resource; the replacement is passed in or created in the body
+	{Form: "custom", Labels: []string{"custom:second-value-transfer-self-field-local"},
+		ResDecl: "access(all) view fun cand(_ replacement: @Res?): @Res? { let old <- self.kid <- replacement\n return <- old }",
+		Call:    "let out <- res.cand(<- W.mkRes())\n        destroy out"},
+	{Form: "custom", Labels: []string{"custom:second-value-transfer-self-field-stored"},
+		ResDecl: "access(all) view fun cand(_ replacement: @Res?): @Res? { let old <- self.kid <- replacement\n return <- old }",
+		Call:    "let out <- st.cand(<- W.mkRes())\n        destroy out"},
+	{Form: "custom", Labels: []string{"custom:second-value-transfer-self-dictionary-local"},
+		ResDecl: "access(all) view fun cand(_ replacement: @Res): @Res? { let old <- self.kidsByName[\"a\"] <- replacement\n return <- old }",
+		Call:    "let out <- res.cand(<- W.mkRes())\n        destroy out"},
+	{Form: "custom", Labels: []string{"custom:second-value-transfer-self-dictionary-stored"},
+		ResDecl: "access(all) view fun cand(_ replacement: @Res): @Res? { let old <- self.kidsByName[\"a\"] <- replacement\n return <- old }",
+		Call:    "let out <- st.cand(<- W.mkRes())\n        destroy out"},
+	{Form: "custom", Labels: []string{"custom:second-value-transfer-self-field-created-in-body"},
+		ResDecl: "access(all) view fun cand(): @Res? { let old <- self.kid <- create Res()\n return <- old }",
+		Call:    "let out <- res.cand()\n        destroy out"},
 	{Form: "custom", Labels: []string{"custom:map-impure-closure"},
 		Decl: "access(all) view fun cand(_ a: [Int]): Int { let m = a.map(fun (x: Int): Int { self.counter = self.counter + x\n return x })\n return m.length }",
 		Call: "let out = W.cand(a)"},
@@ -202,6 +219,7 @@ var c07Forms = []string{"global", "struct-method", "struct-method-via-ref", "res
 type c07Case struct {
 	// Custom candidates (fixed list c07Customs) carry their own declaration and call.
 	Decl     string `json:"decl,omitempty"`      // contract-level declarations incl. the candidate
+	ResDecl  string `json:"res_decl,omitempty"`  // candidate declared as a method of resource Res
 	Call     string `json:"call,omitempty"`      // statements that call it (replace `let out = ...`)
 	ResAfter string `json:"res_after,omitempty"` // variable holding the local resource after the call (default res)
 
@@ -310,7 +328,7 @@ func (c c07Case) contract() string {
 	structCand, resCand, globalCand := "", "", ""
 	switch c.Form {
 	case "custom":
-		globalCand = c.Decl
+		globalCand, resCand = c.Decl, c.ResDecl
 	case "global":
 		globalCand = "access(all) view fun cand(" + c07Params + "): Int {\n            " + ind(c.Body) + "\n            return 0\n        }"
 	case "struct-method", "struct-method-via-ref":
@@ -385,7 +403,8 @@ func (c c07Case) contract() string {
         access(all) var items: [Int]
         access(all) var s: Outer
         access(all) var kid: @Res?
-        init() { self.n = 5; self.items = [1, 2]; self.s = Outer(); self.kid <- nil }
+        access(all) var kidsByName: @{String: Res}
+        init() { self.n = 5; self.items = [1, 2]; self.s = Outer(); self.kid <- nil; self.kidsByName <- {} }
         access(all) fun touch() { self.n = self.n + 1; self.items.append(self.n) }
         ` + resCand + `
     }
@@ -425,7 +444,8 @@ transaction {
 // the receiver, the contract and the account storage.
 const c07Snapshot = `
         log(a); log(d); log(s); log(arrT); log(dictT); log(sT); log(inT); log(recv); log(recvT)
-        log(&res as &W.Res); log(res[W.Att] == nil); log(res.kid == nil); log(st); log(sa)
+        log(&res as &W.Res); log(res[W.Att] == nil); log(res.kid == nil); log(res.kid?.uuid); log(res.kidsByName.keys); log(res.kidsByName["a"]?.uuid)
+        log(st); log(st.kid?.uuid); log(st.kidsByName["a"]?.uuid); log(sa)
         log(W.gArr); log(W.gS); log(W.gDict); log(W.counter)
         log(acct.storage.copy<[Int]>(from: /storage/arr)); log(acct.storage.copy<W.Outer>(from: /storage/outer))
         log(acct.storage.borrow<&W.Res>(from: /storage/res)); log(acct.storage.storagePaths); log(acct.storage.publicPaths)
@@ -459,7 +479,7 @@ func (c c07Case) testTx(control bool) string {
 	after := c07Snapshot
 	destroyName := "res"
 	if c.ResAfter != "" && !control {
-		after = strings.ReplaceAll(strings.ReplaceAll(strings.ReplaceAll(c07Snapshot, "&res as", "&"+c.ResAfter+" as"), "res[W.Att]", c.ResAfter+"[W.Att]"), "res.kid", c.ResAfter+".kid")
+		after = strings.ReplaceAll(strings.ReplaceAll(strings.ReplaceAll(c07Snapshot, "&res as", "&"+c.ResAfter+" as"), "res[W.Att]", c.ResAfter+"[W.Att]"), "(res.kid", "("+c.ResAfter+".kid")
 		destroyName = c.ResAfter
 	}
 	return `import W from 0x1
